@@ -257,6 +257,11 @@ func (flogs *fileLogs) ReadAll(dataID, version dvid.UUID) ([]storage.LogMessage,
 			entryType := binary.LittleEndian.Uint16(data[pos : pos+2])
 			size := int64(binary.LittleEndian.Uint32(data[pos+2 : pos+6]))
 			pos += 6
+			if int64(len(data)) < pos+size {
+				// an incompletely written last record (slicing up to the capacity would pad it with zeros)
+				dvid.Criticalf("truncated record in filelog %q at position %d: %d of %d bytes\n", filename, pos-6, int64(len(data))-pos, size)
+				break
+			}
 			databuf := data[pos : pos+size]
 			pos += size
 			msg := storage.LogMessage{EntryType: entryType, Data: databuf}
@@ -324,6 +329,11 @@ func (flogs *fileLogs) StreamAll(dataID, version dvid.UUID, ch chan storage.LogM
 			entryType := binary.LittleEndian.Uint16(data[pos : pos+2])
 			size := binary.LittleEndian.Uint32(data[pos+2 : pos+6])
 			pos += 6
+			if int64(len(data)) < int64(pos)+int64(size) {
+				// an incompletely written last record (slicing up to the capacity would pad it with zeros)
+				dvid.Criticalf("truncated record in filelog %q at position %d: %d of %d bytes\n", filename, pos-6, len(data)-int(pos), size)
+				break
+			}
 			databuf := data[pos : pos+size]
 			pos += size
 			ch <- storage.LogMessage{EntryType: entryType, Data: databuf}
